@@ -289,6 +289,18 @@ func valTok(quoted string) string {
 
 func simpleDefaults(s Schema) bool {
 	for _, t := range s.Tables {
+		for _, i := range t.Idx { // the engine model checks UNIQUE over the rows for plain column indexes only
+			if i.Unique {
+				if i.Pred != nil {
+					return false
+				}
+				for _, p := range i.Parts {
+					if p.Col == "" || (t.col(p.Col) != nil && t.col(p.Col).Gen != nil) {
+						return false
+					}
+				}
+			}
+		}
 		for _, c := range t.Cols {
 			if c.Def == nil {
 				continue
